@@ -257,6 +257,17 @@ def run(ctx):
                   "bare megabytes are range checked before being shifted",
                   "'%s << 20' is not dominated by a range test: large or negative bare numbers overflow / wrap" % v, witness_path(pp, fp, i))
 
+    # percent / megabyte conversions are exact: an integer division may only be the last arithmetic step
+    from ..misc import exactness
+    outw = [i for i, n in enumerate(pp.nodes) if n["k"] == "bin" and n.get("op") == "=" and pp.pos_of(i) is not None and pp.text(n["l"]).replace(" ", "") in ("*output", "(*output)")]
+    ctx.counters["parseSizeOrPercent_results"] = len(outw)
+    ctx.floor("parseSizeOrPercent_results", 2, "assignments to *output in parseSizeOrPercent (percent and megabyte branches)")
+    for i in outw:
+        e = exactness(pp, pp.nodes[i]["r"])
+        ctx.check(e in ("INT", "QUOT"), "parseSizeOrPercent:result-exact@%d" % pp.nodes[i].get("line", 0), "E-TYPE exactness domain (INT/QUOT/INEXACT)", pp.loc(i),
+                  "the byte count is computed exactly (at most one truncating division, as the last step)",
+                  "the result '%s' divides before it multiplies/adds: the truncated remainder is lost, so 'N%%' of a total that is not a multiple of the "
+                  "divisor is up to N bytes-per-cent too low (thresholds no longer act at the configured value)" % pp.text(pp.nodes[i]["r"])[:80])
     # ------------------------------------------------ (iv) parser / destination agreement
     n_reg = 0
     for f in P.fns.values():
